@@ -179,10 +179,17 @@ def adversarial(rng, grid):
         us = sorted(set(us))
         X = [[u, u if rng.random() < 0.5 else min(1.0, u * 0.5 + 0.5)] for u in us]
         X = [[a, b] for a, b in zip(sorted(r[0] for r in X), sorted(r[1] for r in X))]
-    elif kind == 'tau0':
-        a, b = sorted((rng.uniform(0.0, 0.4), rng.uniform(0.6, 1.0)))
-        f = lambda t: a + (b - a) * t  # noqa
-        X = [[f(.1), f(.2)], [f(.2), f(.4)], [f(.3), f(.1)], [f(.4), f(.3)]]
+    elif kind == 'tau0':          # a permutation with as many concordant as discordant pairs: tau = 0 exactly
+        m = rng.choice([4, 5, 8])
+        while True:
+            perm = list(range(m))
+            rng.shuffle(perm)
+            sgn = sum((1 if perm[i] < perm[j] else -1) for i in range(m) for j in range(i + 1, m))
+            if sgn == 0:
+                break
+        us = sorted(rng.random() for _ in range(m))
+        vs = sorted(rng.random() for _ in range(m))
+        X = [[us[i], vs[perm[i]]] for i in range(m)]
     elif kind == 'swaps':         # mostly increasing (tau > 0), values partly from the pool
         us = sorted(rng.choice(pool) if rng.random() < 0.3 else rng.random() for _ in range(n))
         vs = sorted(rng.choice(pool) if rng.random() < 0.3 else rng.random() for _ in range(n))
